@@ -17,6 +17,9 @@ use std::panic::{AssertUnwindSafe, catch_unwind};
 use vh::*;
 
 const POOL: [&str; 6] = ["a", "b", "c", "d", "e", "f"];
+/// names of enums and interfaces (child namespaces), and of enum variants
+const TYPE_POOL: [&str; 3] = ["Ea", "Eb", "Ec"];
+const VARIANTS: [&str; 3] = ["Va", "Vb", "Vc"];
 const PRELUDE_NAME: &str = "assert";
 const INTRINSIC_NAME: &str = "add_int";
 
@@ -38,11 +41,23 @@ enum St {
     For(String, usize, Vec<St>),
     Match(String, usize, Vec<St>),
     Lam(String, usize, Vec<St>),
+    /// qualified variant pattern `Ty.V` in a match arm (resolved through `lookup_namespace`)
+    PMatch(String, String),
+    /// variant expression `[alias.]Ty.V` (resolved through the declarations)
+    EUse(Option<String>, String, String),
+}
+
+#[derive(Clone, Debug)]
+struct TypeD {
+    name: String,
+    is_enum: bool,
+    members: Vec<String>,
 }
 
 #[derive(Clone, Debug, Default)]
 struct FileD {
     decls: Vec<String>,
+    types: Vec<TypeD>,
     imports: Vec<Imp>,
     probe: Vec<St>,
     top: Vec<St>,
@@ -57,6 +72,13 @@ struct World {
 struct Gen<'a> {
     rng: &'a mut Rng,
     next_id: usize,
+    /// all type names declared anywhere in the world / visible in the file whose body is generated
+    type_names: Vec<String>,
+    visible_types: Vec<String>,
+    /// visible enums with their variants
+    visible_enums: Vec<(String, Vec<String>)>,
+    /// only generate uses that resolve (names visible at that point, existing variants)
+    strict: bool,
 }
 
 impl<'a> Gen<'a> {
@@ -69,7 +91,9 @@ impl<'a> Gen<'a> {
     }
     fn names(&mut self, max: u64) -> Vec<String> {
         let n = 1 + self.rng.below(max);
-        (0..n).map(|_| self.name()).collect()
+        (0..n)
+            .map(|_| if self.rng.chance(1, 3) { TYPE_POOL[self.rng.below(3) as usize].to_string() } else { self.name() })
+            .collect()
     }
     fn id(&mut self) -> usize {
         self.next_id += 1;
@@ -82,6 +106,31 @@ impl<'a> Gen<'a> {
         let mut v = vec![];
         for _ in 0..n {
             let k = self.rng.below(if depth >= 3 { 6 } else { 11 });
+            if !self.type_names.is_empty() && self.rng.chance(1, 5) && !(self.strict && self.visible_enums.is_empty()) {
+                // a use of an enum variant, as a pattern or as an expression; 5 in 6 name a visible type
+                let (ty, var) = if !self.visible_enums.is_empty() && (self.strict || !self.rng.chance(1, 4)) {
+                    let (n, ms) = self.visible_enums[self.rng.below(self.visible_enums.len() as u64) as usize].clone();
+                    let var = if self.strict || !self.rng.chance(1, 5) {
+                        ms[self.rng.below(ms.len() as u64) as usize].clone()
+                    } else {
+                        VARIANTS[self.rng.below(3) as usize].to_string()
+                    };
+                    (n, var)
+                } else if !self.visible_types.is_empty() && !self.rng.chance(1, 3) {
+                    (self.visible_types[self.rng.below(self.visible_types.len() as u64) as usize].clone(), VARIANTS[self.rng.below(3) as usize].to_string())
+                } else {
+                    (TYPE_POOL[self.rng.below(3) as usize].to_string(), VARIANTS[self.rng.below(3) as usize].to_string())
+                };
+                let st = if self.rng.chance(1, 2) {
+                    St::PMatch(ty, var)
+                } else if !self.strict && !members.is_empty() && self.rng.chance(1, 4) {
+                    St::EUse(Some(members[self.rng.below(members.len() as u64) as usize].0.clone()), ty, var)
+                } else {
+                    St::EUse(None, ty, var)
+                };
+                v.push(st);
+                continue;
+            }
             let s = match k {
                 0 | 1 => {
                     let x = self.name();
@@ -89,8 +138,12 @@ impl<'a> Gen<'a> {
                     St::Let(x, self.id())
                 }
                 2 | 3 | 4 => {
-                    if !env.is_empty() && !self.rng.chance(1, 10) {
+                    if !env.is_empty() && (self.strict || !self.rng.chance(1, 10)) {
                         St::Use(env[self.rng.below(env.len() as u64) as usize].clone())
+                    } else if self.strict {
+                        let x = self.name();
+                        env.push(x.clone());
+                        St::Let(x, self.id())
                     } else if self.rng.chance(1, 4) {
                         St::Use("zz".into())
                     } else {
@@ -99,9 +152,9 @@ impl<'a> Gen<'a> {
                 }
                 5 => {
                     let usable: Vec<&(String, Vec<String>)> = members.iter().filter(|m| !m.1.is_empty()).collect();
-                    if usable.is_empty() && !self.rng.chance(1, 10) {
-                        if env.is_empty() { St::Use(self.name()) } else { St::Use(env[self.rng.below(env.len() as u64) as usize].clone()) }
-                    } else if usable.is_empty() || self.rng.chance(1, 12) {
+                    if usable.is_empty() && (self.strict || !self.rng.chance(1, 10)) {
+                        if env.is_empty() { let x = self.name(); env.push(x.clone()); St::Let(x, self.id()) } else { St::Use(env[self.rng.below(env.len() as u64) as usize].clone()) }
+                    } else if usable.is_empty() || (!self.strict && self.rng.chance(1, 12)) {
                         if self.rng.chance(1, 2) || members.is_empty() {
                             St::QUse("qq".to_string(), self.name())
                         } else {
@@ -138,6 +191,7 @@ impl<'a> Gen<'a> {
         v
     }
     fn world(&mut self, clean: bool) -> World {
+        self.strict = clean && !self.rng.chance(1, 3);
         let nfiles = 1 + self.rng.below(4) as usize;
         let mut files: Vec<FileD> = vec![];
         for k in 0..nfiles {
@@ -147,6 +201,22 @@ impl<'a> Gen<'a> {
                 let take = if clean { i % nfiles == k && self.rng.chance(3, 4) } else { self.rng.chance(2, 5) };
                 if take {
                     f.decls.push(n.to_string());
+                }
+            }
+            // enums and interfaces (the same type name may be declared by several files, also in `clean` mode)
+            let ntypes = self.rng.below(3);
+            for _ in 0..ntypes {
+                let name = TYPE_POOL[self.rng.below(3) as usize].to_string();
+                if f.types.iter().any(|t| t.name == name) && (clean || !self.rng.chance(1, 6)) {
+                    continue;
+                }
+                if self.rng.chance(1, 4) {
+                    f.types.push(TypeD { name, is_enum: false, members: vec!["im".into()] });
+                } else {
+                    let skip = self.rng.below(4) as usize; // 3 = keep all three variants
+                    let members: Vec<String> =
+                        VARIANTS.iter().enumerate().filter(|(i, _)| *i != skip).map(|(_, v)| v.to_string()).collect();
+                    f.types.push(TypeD { name, is_enum: true, members });
                 }
             }
             if !clean {
@@ -188,24 +258,96 @@ impl<'a> Gen<'a> {
             }
             files.push(f);
         }
-        // main imports every other file under an alias so that all files are loaded and probes callable
-        for k in 1..nfiles {
-            files[0].imports.push(Imp::As(k, format!("z{k}")));
+        // every file imports every other file under an alias: all files are loaded, probes and the
+        // per-enum helper functions are callable from everywhere
+        for k in 0..nfiles {
+            for j in 0..nfiles {
+                if j != k {
+                    files[k].imports.push(Imp::As(j, format!("z{j}")));
+                }
+            }
+        }
+        // helper functions of every enum: constructors `mk_<file>_<idx>_<variant>` and a printer `show_<file>_<idx>`
+        for k in 0..nfiles {
+            let mut extra = vec![];
+            for (i, t) in files[k].types.iter().enumerate() {
+                if t.is_enum {
+                    for v in &t.members {
+                        extra.push(format!("mk_{k}_{i}_{v}"));
+                    }
+                    extra.push(format!("show_{k}_{i}"));
+                }
+            }
+            files[k].decls.extend(extra);
         }
         let mut w = World { files };
+        if clean {
+            // repair the filtered / glob imports so that no name is supplied twice: a clashing name is
+            // excluded (this is what `except` and inclusion lists are for)
+            for k in 0..nfiles {
+                let mut seen: Vec<String> = exported(&w, k).into_iter().map(|(n, _)| n).collect();
+                seen.push(PRELUDE_NAME.into());
+                seen.push(INTRINSIC_NAME.into());
+                let imports = w.files[k].imports.clone();
+                let mut fixed = vec![];
+                for imp in imports {
+                    let imp2 = match imp {
+                        Imp::Glob(m) => {
+                            let bad: Vec<String> = exported(&w, m).into_iter().map(|(n, _)| n).filter(|n| seen.contains(n)).collect();
+                            if bad.is_empty() { Imp::Glob(m) } else { Imp::Excl(m, bad) }
+                        }
+                        Imp::Incl(m, l) => Imp::Incl(m, l.into_iter().filter(|n| !seen.contains(n)).collect::<Vec<_>>()),
+                        Imp::Excl(m, mut l) => {
+                            for (n, _) in exported(&w, m) {
+                                if seen.contains(&n) && !l.contains(&n) {
+                                    l.push(n);
+                                }
+                            }
+                            Imp::Excl(m, l)
+                        }
+                        other => other,
+                    };
+                    if let Imp::Incl(_, l) = &imp2 {
+                        if l.is_empty() {
+                            continue;
+                        }
+                    }
+                    match &imp2 {
+                        Imp::Glob(m) => seen.extend(exported(&w, *m).into_iter().map(|(n, _)| n)),
+                        Imp::Incl(m, l) => seen.extend(exported(&w, *m).into_iter().map(|(n, _)| n).filter(|n| l.contains(n))),
+                        Imp::Excl(m, l) => seen.extend(exported(&w, *m).into_iter().map(|(n, _)| n).filter(|n| !l.contains(n))),
+                        _ => {}
+                    }
+                    fixed.push(imp2);
+                }
+                w.files[k].imports = fixed;
+            }
+        }
+        self.type_names = w.files.iter().flat_map(|f| f.types.iter().map(|t| t.name.clone())).collect();
         for k in 0..nfiles {
             let members: Vec<(String, Vec<String>)> = w.files[k]
                 .imports
                 .iter()
                 .filter_map(|i| if let Imp::As(m, p) = i { Some((p.clone(), *m)) } else { None })
                 .filter(|(p, _)| p.starts_with('p'))
-                .map(|(p, m)| (p, exported(&w, m).into_iter().map(|(n, _)| n).filter(|n| !n.starts_with("probe")).collect()))
+                .map(|(p, m)| (p, exported(&w, m).into_iter().filter(|(_, d)| matches!(d, RDecl::Fn(..))).map(|(n, _)| n).filter(|n| !n.starts_with("probe") && !n.starts_with("mk_") && !n.starts_with("show_")).collect()))
                 .collect();
             let base: Vec<String> = ref_file(&w, k)
                 .supplied
                 .into_iter()
-                .filter(|(n, d)| matches!(d, RDecl::Fn(..)) && !n.starts_with("probe"))
+                .filter(|(n, d)| matches!(d, RDecl::Fn(..)) && !n.starts_with("probe") && !n.starts_with("mk_") && !n.starts_with("show_"))
                 .map(|(n, _)| n)
+                .collect();
+            self.visible_types = ref_file(&w, k)
+                .supplied
+                .into_iter()
+                .filter(|(_, d)| matches!(d, RDecl::Enum(..) | RDecl::Iface(..)))
+                .map(|(n, _)| n)
+                .collect();
+            self.visible_enums = ref_file(&w, k)
+                .supplied
+                .into_iter()
+                .filter_map(|(n, d)| if let RDecl::Enum(f, i, _) = d { Some((n, w.files[f].types[i].members.clone())) } else { None })
                 .collect();
             let mut env = base.clone();
             w.files[k].probe = self.stmts(1, &mut env, &members, 5);
@@ -226,6 +368,9 @@ enum RDecl {
     Builtin(String),
     Prelude(String),
     Loc(usize),
+    Enum(usize, usize, String),
+    Iface(usize, usize, String),
+    Variant(usize, usize, String, String),
 }
 impl RDecl {
     fn tag(&self) -> String {
@@ -235,6 +380,9 @@ impl RDecl {
             RDecl::Builtin(n) => format!("B.{n}"),
             RDecl::Prelude(n) => format!("P.{n}"),
             RDecl::Loc(i) => format!("L{i}"),
+            RDecl::Enum(f, _, n) => format!("E{f}.{n}"),
+            RDecl::Iface(f, _, n) => format!("I{f}.{n}"),
+            RDecl::Variant(f, _, n, v) => format!("F{f}.{n}.{v}"),
         }
     }
 }
@@ -256,7 +404,21 @@ fn exported(w: &World, k: usize) -> Vec<(String, RDecl)> {
         }
     }
     out.push((format!("probe{k}"), RDecl::Fn(k, format!("probe{k}"))));
+    for (i, t) in w.files[k].types.iter().enumerate() {
+        if !seen.contains(&t.name) {
+            seen.push(t.name.clone());
+            out.push((t.name.clone(), if t.is_enum { RDecl::Enum(k, i, t.name.clone()) } else { RDecl::Iface(k, i, t.name.clone()) }));
+        }
+    }
     out
+}
+
+/// variant `v` of the enum the declaration stands for
+fn ref_variant(w: &World, d: Option<RDecl>, v: &str) -> Option<RDecl> {
+    match d {
+        Some(RDecl::Enum(f, i, n)) if w.files[f].types[i].members.iter().any(|m| m == v) => Some(RDecl::Variant(f, i, n, v.to_string())),
+        _ => None,
+    }
 }
 
 fn ref_file(w: &World, k: usize) -> RefFile {
@@ -293,7 +455,9 @@ fn ref_clashes(w: &World, k: usize) -> Vec<String> {
     }
     // a name declared twice inside the file itself
     let mut seen: Vec<&String> = vec![];
-    for d in &w.files[k].decls {
+    let own: Vec<String> =
+        w.files[k].decls.iter().cloned().chain(std::iter::once(format!("probe{k}"))).chain(w.files[k].types.iter().map(|t| t.name.clone())).collect();
+    for d in &own {
         if seen.contains(&d) {
             out.push(d.clone());
         } else {
@@ -317,6 +481,21 @@ fn ref_stmts(w: &World, env: &mut Vec<(String, RDecl)>, ss: &[St], out: &mut Vec
                     _ => None,
                 };
                 out.push(r);
+            }
+            // the property: a type name in a pattern denotes the same declaration as in an expression
+            St::PMatch(ty, v) => {
+                let d = env.iter().rev().find(|(n, _)| n == ty).map(|(_, d)| d.clone());
+                out.push(ref_variant(w, d, v));
+            }
+            St::EUse(pre, ty, v) => {
+                let d = match pre {
+                    None => env.iter().rev().find(|(n, _)| n == ty).map(|(_, d)| d.clone()),
+                    Some(p) => match env.iter().rev().find(|(n, _)| n == p) {
+                        Some((_, RDecl::Alias(_, m))) => exported(w, *m).into_iter().find(|(n, _)| n == ty).map(|(_, d)| d),
+                        _ => None,
+                    },
+                };
+                out.push(ref_variant(w, d, v));
             }
             St::Block(_, body) => {
                 let mark = env.len();
@@ -377,10 +556,81 @@ fn file_name(k: usize) -> String {
     if k == 0 { "main".into() } else { format!("f{k}") }
 }
 
-fn render_stmts(ss: &[St], ind: usize, src: &mut String, seg: char, n_use: &mut usize, uses: &mut Vec<(char, usize, usize, usize)>) {
+/// how file `k` names a helper function of file `m`
+fn helper(k: usize, m: usize, name: &str) -> String {
+    if k == m { name.to_string() } else { format!("z{m}.{name}") }
+}
+
+/// an enum value to match a pattern `ty.v` against when the reference says the pattern does not
+/// resolve: prefer an enum called `ty` that has `v` (a wrongly visible one would then be accepted)
+fn fallback_scrutinee(w: &World, k: usize, ty: &str, v: &str) -> Option<String> {
+    let mut best: Option<(u8, String)> = None;
+    for (m, f) in w.files.iter().enumerate() {
+        for (i, t) in f.types.iter().enumerate() {
+            if !t.is_enum {
+                continue;
+            }
+            let (score, var) = if t.name == ty && t.members.iter().any(|x| x == v) {
+                (3, v.to_string())
+            } else if t.members.iter().any(|x| x == v) {
+                (2, v.to_string())
+            } else if t.name == ty {
+                (1, t.members[0].clone())
+            } else {
+                (0, t.members[0].clone())
+            };
+            if best.as_ref().map(|b| score > b.0).unwrap_or(true) {
+                best = Some((score, format!("{}()", helper(k, m, &format!("mk_{m}_{i}_{var}")))));
+            }
+        }
+    }
+    best.map(|b| b.1)
+}
+
+#[allow(clippy::too_many_arguments)]
+fn render_stmts(w: &World, k: usize, res: &[Option<RDecl>], ss: &[St], ind: usize, src: &mut String, seg: char, n_use: &mut usize, uses: &mut Vec<(char, usize, usize, usize)>) {
     let pad = "  ".repeat(ind);
     for s in ss {
         match s {
+            St::PMatch(ty, v) => {
+                let want = res.get(*n_use).cloned().flatten();
+                let (scrut, tag) = match &want {
+                    Some(RDecl::Variant(m, i, n, vv)) => (Some(format!("{}()", helper(k, *m, &format!("mk_{m}_{i}_{vv}")))), format!("F{m}.{n}.{vv}")),
+                    _ => (fallback_scrutinee(w, k, ty, v), "unexpected".to_string()),
+                };
+                let scrut = scrut.unwrap_or_else(|| "0".to_string());
+                src.push_str(&format!("{pad}match {scrut} {{\n{pad}  "));
+                let lo = src.len();
+                src.push_str(&format!("{ty}.{v}"));
+                uses.push((seg, *n_use, lo, src.len()));
+                *n_use += 1;
+                src.push_str(&format!(" -> println(\"{tag}\")\n{pad}  _ -> println(\"other\")\n{pad}}}\n"));
+            }
+            St::EUse(pre, ty, v) => {
+                let want = res.get(*n_use).cloned().flatten();
+                let expr = match pre {
+                    Some(p) => format!("{p}.{ty}.{v}"),
+                    None => format!("{ty}.{v}"),
+                };
+                src.push_str(&pad);
+                match &want {
+                    Some(RDecl::Variant(m, i, _, _)) => {
+                        src.push_str(&format!("{}(", helper(k, *m, &format!("show_{m}_{i}"))));
+                        let lo = src.len();
+                        src.push_str(&expr);
+                        uses.push((seg, *n_use, lo, src.len()));
+                        src.push_str(")\n");
+                    }
+                    _ => {
+                        src.push_str(&format!("let t{} = ", src.len()));
+                        let lo = src.len();
+                        src.push_str(&expr);
+                        uses.push((seg, *n_use, lo, src.len()));
+                        src.push('\n');
+                    }
+                }
+                *n_use += 1;
+            }
             St::Let(x, id) => src.push_str(&format!("{pad}let {x} = (z: int) -> println(\"L{id}\")\n")),
             St::Use(x) => {
                 src.push_str(&pad);
@@ -407,22 +657,22 @@ fn render_stmts(ss: &[St], ind: usize, src: &mut String, seg: char, n_use: &mut 
                         src.push_str(&format!("{pad}var w{w} = true\n{pad}while w{w} {{\n{pad}  w{w} = false\n"));
                     }
                 }
-                render_stmts(body, ind + 1, src, seg, n_use, uses);
+                render_stmts(w, k, res, body, ind + 1, src, seg, n_use, uses);
                 src.push_str(&format!("{pad}}}\n"));
             }
             St::For(x, id, body) => {
                 src.push_str(&format!("{pad}let arr{id}: array<int -> void> = [(z: int) -> println(\"L{id}\")]\n{pad}for {x} in arr{id} {{\n"));
-                render_stmts(body, ind + 1, src, seg, n_use, uses);
+                render_stmts(w, k, res, body, ind + 1, src, seg, n_use, uses);
                 src.push_str(&format!("{pad}}}\n"));
             }
             St::Match(x, id, body) => {
                 src.push_str(&format!("{pad}match ((z: int) -> println(\"L{id}\")) {{\n{pad}  {x} -> {{\n"));
-                render_stmts(body, ind + 2, src, seg, n_use, uses);
+                render_stmts(w, k, res, body, ind + 2, src, seg, n_use, uses);
                 src.push_str(&format!("{pad}  }}\n{pad}}}\n"));
             }
             St::Lam(x, id, body) => {
                 src.push_str(&format!("{pad}let g{id} = ({x}: int -> void) -> {{\n"));
-                render_stmts(body, ind + 1, src, seg, n_use, uses);
+                render_stmts(w, k, res, body, ind + 1, src, seg, n_use, uses);
                 src.push_str(&format!("{pad}}}\n{pad}g{id}((z: int) -> println(\"L{id}\"))\n"));
             }
         }
@@ -430,6 +680,7 @@ fn render_stmts(ss: &[St], ind: usize, src: &mut String, seg: char, n_use: &mut 
 }
 
 fn render(w: &World) -> Rendered {
+    let rr = reference(w);
     let mut r = Rendered { files: vec![], uses: vec![], imports: vec![] };
     for (k, f) in w.files.iter().enumerate() {
         let mut src = String::new();
@@ -448,16 +699,43 @@ fn render(w: &World) -> Rendered {
             src.push('\n');
         }
         for d in &f.decls {
-            src.push_str(&format!("fn {d}(z: int) {{\n  println(\"F{k}.{d}\")\n}}\n"));
+            if let Some(rest) = d.strip_prefix("mk_") {
+                // mk_<file>_<idx>_<variant>
+                let parts: Vec<&str> = rest.split('_').collect();
+                let i: usize = parts[1].parse().unwrap();
+                let t = &f.types[i];
+                src.push_str(&format!("fn {d}() -> {} {{\n  {}.{}\n}}\n", t.name, t.name, parts[2]));
+            } else if let Some(rest) = d.strip_prefix("show_") {
+                let parts: Vec<&str> = rest.split('_').collect();
+                let i: usize = parts[1].parse().unwrap();
+                let t = &f.types[i];
+                src.push_str(&format!("fn {d}(x: {}) {{\n  match x {{\n", t.name));
+                for v in &t.members {
+                    src.push_str(&format!("    .{v} -> println(\"F{k}.{}.{v}\")\n", t.name));
+                }
+                src.push_str("  }\n}\n");
+            } else {
+                src.push_str(&format!("fn {d}(z: int) {{\n  println(\"F{k}.{d}\")\n}}\n"));
+            }
+        }
+        for t in &f.types {
+            if t.is_enum {
+                src.push_str(&format!("type {} =\n", t.name));
+                for v in &t.members {
+                    src.push_str(&format!("  | {v}\n"));
+                }
+            } else {
+                src.push_str(&format!("interface {} {{\n  fn {}(self) -> int\n}}\n", t.name, t.members[0]));
+            }
         }
         src.push_str(&format!("fn probe{k}(z: int) {{\n  println(\"#{k}.p\")\n"));
         let mut n = 0;
-        render_stmts(&f.probe, 1, &mut src, 'p', &mut n, &mut uses);
+        render_stmts(w, k, &rr.probe[k], &f.probe, 1, &mut src, 'p', &mut n, &mut uses);
         src.push_str("}\n");
         if k == 0 {
             src.push_str("println(\"#0.t\")\n");
             let mut n = 0;
-            render_stmts(&f.top, 0, &mut src, 't', &mut n, &mut uses);
+            render_stmts(w, k, &rr.top[k], &f.top, 0, &mut src, 't', &mut n, &mut uses);
             src.push_str("probe0(0)\n");
             for j in 1..w.files.len() {
                 src.push_str(&format!("z{j}.probe{j}(0)\n"));
@@ -477,6 +755,8 @@ fn enc_stmts(ss: &[St], out: &mut String) {
             St::Let(x, id) => out.push_str(&format!("l{x}.{id};")),
             St::Use(x) => out.push_str(&format!("u{x};")),
             St::QUse(q, x) => out.push_str(&format!("q{q}.{x};")),
+            St::PMatch(ty, v) => out.push_str(&format!("x_.{ty}.{v};")),
+            St::EUse(pre, ty, v) => out.push_str(&format!("y{}.{ty}.{v};", pre.clone().unwrap_or_else(|| "_".into()))),
             St::Block(_, b) => {
                 out.push('{');
                 enc_stmts(b, out);
@@ -517,7 +797,9 @@ fn request(w: &World) -> String {
         let mut t = String::new();
         enc_stmts(&f.top, &mut t);
         let dash = |x: String| if x.is_empty() { "-".to_string() } else { x };
-        s.push_str(&format!(" {} {} {} {}", decls.join(","), dash(imps.join(",")), dash(p), dash(t)));
+        let types: Vec<String> =
+            f.types.iter().map(|t| format!("{}:{}:{}", if t.is_enum { "E" } else { "I" }, t.name, t.members.join("+"))).collect();
+        s.push_str(&format!(" {} {} {} {} {}", decls.join(","), dash(types.join(",")), dash(imps.join(",")), dash(p), dash(t)));
     }
     s
 }
@@ -586,7 +868,8 @@ fn run_impl(w: &World) -> String {
             (p[0].parse::<usize>().unwrap(), if p[1] == "p" { 0 } else { 1 }, p[2].parse::<usize>().unwrap())
         });
         let mut ans = format!("diag clash={} unres={} bad={}", join_c(&clashes), join_c(&unres), bad.len());
-        if !other.is_empty() {
+        // a clash makes later type errors a matter of which declaration happened to stay: not compared
+        if !other.is_empty() && clashes.is_empty() {
             other.sort();
             other.dedup();
             ans.push_str(&format!(" other={}", other.join(" / ")));
@@ -662,6 +945,7 @@ fn strip_builtin_uses(ss: &mut Vec<St>, res: &[Option<RDecl>], idx: &mut usize) 
                 *idx += 1;
             }
             St::Let(..) => {}
+            St::PMatch(..) | St::EUse(..) => *idx += 1,
             St::Block(_, b) | St::For(_, _, b) | St::Match(_, _, b) | St::Lam(_, _, b) => {
                 strip_builtin_uses(b, res, idx);
                 if b.is_empty() {
@@ -682,7 +966,7 @@ fn main() {
     let n_prog = if ctx.quick() { 700 } else { 12000 };
     let mut worlds: Vec<World> = vec![];
     {
-        let mut g = Gen { rng: &mut ctx.rng, next_id: 0 };
+        let mut g = Gen { rng: &mut ctx.rng, next_id: 0, type_names: vec![], visible_types: vec![], visible_enums: vec![], strict: false };
         for i in 0..n_prog {
             g.next_id = 0;
             let mut w = g.world(i % 2 == 0);
@@ -743,11 +1027,20 @@ fn main() {
                     Some(RDecl::Loc(_)) => "use:local",
                     Some(RDecl::Fn(f, _)) if *f == k => "use:own-file",
                     Some(RDecl::Fn(..)) => "use:imported",
+                    Some(RDecl::Variant(f, ..)) if *f == k => "use:variant-of-own-enum",
+                    Some(RDecl::Variant(..)) => "use:variant-of-imported-enum",
                     Some(_) => "use:other",
                 });
             }
         }
-        if imp != expect {
+        let differs = if !rr.clashes.is_empty() {
+            // with a clash only the clash multiset and the bad imports are what the property fixes
+            let strip = |a: &str| a.split(' ').filter(|p| !p.starts_with("unres=") && !p.starts_with("other=")).collect::<Vec<_>>().join(" ");
+            !imp.starts_with("diag") || strip(imp.split(" other=").next().unwrap_or("")) != strip(&expect)
+        } else {
+            imp != expect
+        };
+        if differs {
             let r = render(w);
             let mut text = String::new();
             for (k, f) in r.files.iter().enumerate() {
